@@ -97,8 +97,8 @@ func TestVictim(t *testing.T) {
 				cs := s.Nodes[victim].CS
 				halted := false
 				if (strings.Contains(msg, "committed an invalid block") || strings.Contains(msg, "prevoted for an invalid block")) && cs.ProposalBlock != nil && cs.ProposalBlockParts != nil {
-					if c := s.CandByID(types.BlockID{Hash: cs.ProposalBlock.Hash(), PartsHeader: cs.ProposalBlockParts.Header()}); c != nil && !c.Valid {
-						halted = true
+					if c := s.CandByID(types.BlockID{Hash: cs.ProposalBlock.Hash(), PartsHeader: cs.ProposalBlockParts.Header()}); c != nil && (!c.Valid || c.Height != cs.Height) {
+						halted = true // (a block built for another height is as invalid here as a mutated one)
 					}
 				}
 				if !halted {
